@@ -27,6 +27,7 @@ int g_rest_cost;                    /* table cost of the response entries behind
 int g_head_cost;                    /* table cost of the head response entry (0 when the queue is empty) */
 guint g_old_ml;
 unsigned g_nn_lookups; t_bidib_node_state *g_other; const uint8_t *g_key;
+uint8_t g_path[4][4]; _Bool g_path_valid[4]; t_bidib_node_state *g_path_state[4]; unsigned g_path_lookups[4]; _Bool g_found; unsigned g_push_to[4];
 size_t g_w;                         /* watched message byte */
 time_t g_now;
 unsigned g_add_calls; const uint8_t *g_add_msg; uint8_t g_add_watch; unsigned g_flush_calls;
@@ -85,6 +86,10 @@ gpointer vp_q_fresh(GQueue *q) {
 	return s;
 }
 void vp_q_pushed(GQueue *q, gpointer e) {
+#ifdef VP_H_STALL_READY
+	for (int l = 0; l < 4; l++) if (g_path_state[l] != NULL && q == g_path_state[l]->stall_affected_nodes_queue) g_push_to[l]++;
+	return;
+#endif
 	if (q == g_state->response_queue) {
 		if (q->length > 1) g_rest_cost += COST(((t_bidib_response_queue_entry *)e)->type);
 		else g_head_cost = COST(((t_bidib_response_queue_entry *)e)->type);
@@ -97,6 +102,10 @@ void vp_q_popped(GQueue *q, gpointer e) {
 
 gpointer g_hash_table_lookup(GHashTable *t, gconstpointer key) {
 	const uint8_t *k = key;
+#ifdef VP_H_STALL_READY
+	for (int l = 0; l < 4; l++) if (k[0] == g_path[l][0] && k[1] == g_path[l][1] && k[2] == g_path[l][2] && k[3] == 0 && g_path_valid[l]) { g_path_lookups[l]++; return g_path_state[l]; }
+	return NULL;
+#endif
 	if (k == g_key) return g_state;   /* the node the harness talks to is in the table (a first contact creates the all-empty state, which NI covers) */
 #ifdef VP_H_UPDATE_STALL
 	_Bool known;   /* a waiting node may or may not (no longer) be in the table */
@@ -150,6 +159,16 @@ __CPROVER_ensures(__CPROVER_return_value == g_sr_ret && g_sr_calls == __CPROVER_
 static void bidib_node_try_queued_messages(t_bidib_node_state *state)
 __CPROVER_assigns(g_tq_calls, g_tq_last)
 __CPROVER_ensures(g_tq_calls == __CPROVER_old(g_tq_calls) + 1 && g_tq_last == state)
+;
+#endif
+#ifdef VP_H_STATE_UPDATE
+int g_tq_cmr;    /* budget counter at the moment of the (last) retry of the deferred queue */
+/* contract of bidib_node_try_queued_messages as proved in its own unit: on return the oldest held message is not stranded
+ * (stalled, or nothing held, or it does not fit); here only the fact and the moment of the call are recorded */
+static void bidib_node_try_queued_messages(t_bidib_node_state *state)
+__CPROVER_requires(state == g_state)
+__CPROVER_assigns(g_tq_calls, g_tq_cmr)
+__CPROVER_ensures(g_tq_calls == __CPROVER_old(g_tq_calls) + 1 && g_tq_cmr == g_state->current_max_respond)
 ;
 #endif
 
@@ -237,5 +256,72 @@ void vp_harness(void) {
 		__CPROVER_assert(g_state->stall, "C04.update_stall.flag_set_on_stall_1");
 		__CPROVER_assert(g_state->stall_affected_nodes_queue->length == old_sl && g_tq_calls == 0, "C04.update_stall.nothing_released_on_stall_1");
 	}
+}
+#endif
+
+#ifdef VP_H_STATE_UPDATE
+/* is `t` one of the answer types the table accepts for request type `req`? */
+static _Bool accepted(uint8_t req, uint8_t t) { for (int i = 2; i <= 5; i++) if (i <= bidib_response_info[req][0] && bidib_response_info[req][i] == t) return 1; return 0; }
+void vp_harness(void) {
+	make_state();
+	__CPROVER_assume(NI_HOLDS());
+	uint8_t in_type; VP_IN(uint8_t, in_type);                    /* uplink type code: any of the 256 */
+	__CPROVER_assume(g_state->response_queue->length <= 3);      /* bounded stand-in: stated bound */
+	uint8_t addr[4] = {g_state->addr[0], g_state->addr[1], g_state->addr[2], 0}; g_key = addr;
+	guint old_rl = g_state->response_queue->length; int old_cmr = g_state->current_max_respond;
+	t_bidib_response_queue_entry *head = old_rl ? (t_bidib_response_queue_entry *)g_state->response_queue->head : NULL;
+	uint8_t head_type = head ? head->type : 0; _Bool head_expired = head ? (vp_difftime(g_now, head->creation_time) >= 2) : 0;
+	unsigned head_action = head ? head->action_id : 0;
+	g_tq_calls = 0;
+	unsigned r = bidib_node_state_update(addr, in_type);
+	VP_COVER(old_rl > 0 && accepted(head_type, in_type));
+	VP_COVER(old_rl > 1 && head_expired);
+	__CPROVER_assert(NI_HOLDS(), "C03.update.budget_invariant_preserved");
+	__CPROVER_assert(g_state->current_max_respond <= old_cmr, "C03.update.an_uplink_message_never_increases_the_outstanding_budget");
+	if (old_rl > 0 && accepted(head_type, in_type)) {
+		__CPROVER_assert(g_state->response_queue->length < old_rl, "C03.update.matching_answer_removes_the_oldest_request");
+		if (!head_expired) __CPROVER_assert(r == head_action && g_state->response_queue->length == old_rl - 1 && g_state->current_max_respond == old_cmr - COST(head_type),
+		                                    "C03.update.answer_in_time_frees_exactly_the_oldest_requests_cost_and_reports_its_action_id");
+	}
+	if (old_rl > 0 && !head_expired && !accepted(head_type, in_type))
+		__CPROVER_assert(g_state->response_queue->length == old_rl && g_state->current_max_respond == old_cmr && r == 0, "C03.update.unrelated_message_changes_nothing_before_expiry");
+	/* expiry must not swallow the answer: if this call only expired requests (matched none) and stopped at a request that is still in
+	 * time and accepts the arriving type, that request should have been matched by it */
+	if (g_state->response_queue->length < old_rl && g_tq_calls == 0 && g_state->response_queue->length > 0) {
+		t_bidib_response_queue_entry *h2 = (t_bidib_response_queue_entry *)g_state->response_queue->head;
+		__CPROVER_assert(!(accepted(h2->type, in_type) && vp_difftime(g_now, h2->creation_time) < 2), "C03.update.after_an_expiry_the_next_request_is_matched_against_all_its_answer_types");
+	}
+	/* never stranded: whenever the budget changed, the deferred queue was retried with the final budget */
+	if (g_state->current_max_respond != old_cmr)
+		__CPROVER_assert(g_tq_calls >= 1 && g_tq_cmr == g_state->current_max_respond, "C03.update.deferred_queue_retried_after_every_budget_release (answer or expiry)");
+}
+#endif
+
+#ifdef VP_H_STALL_READY
+GList *g_queue_find_custom(GQueue *queue, gconstpointer data, GCompareFunc func) { return g_found ? (GList *)queue : NULL; }
+/* node address a (depth 1..3, or the interface 0.0.0) and its ancestors: level 0 = the node itself, then its parent, ...; the
+ * interface itself (0.0.0) is the last ancestor of every node */
+void vp_harness(void) {
+	uint8_t a[4]; __CPROVER_assume(a[3] == 0 && (a[0] != 0 || (a[1] == 0 && a[2] == 0)) && (a[1] != 0 || a[2] == 0));
+	unsigned depth = a[0] == 0 ? 0 : a[1] == 0 ? 1 : a[2] == 0 ? 2 : 3;
+	static t_bidib_node_state st[4];
+	g_state = &st[0];
+	for (int l = 0; l < 4; l++) {
+		g_path_valid[l] = (unsigned)l <= depth;
+		for (int b = 0; b < 4; b++) g_path[l][b] = (b < (int)depth - l) ? a[b] : 0;
+		_Bool exists; g_path_state[l] = (g_path_valid[l] && exists) ? &st[l] : NULL;
+		st[l].stall = st[l].stall ? 1 : 0; st[l].stall_affected_nodes_queue = g_queue_new(); guint n; st[l].stall_affected_nodes_queue->length = n % 5;
+		g_path_lookups[l] = 0; g_push_to[l] = 0;
+	}
+	VP_IN(_Bool, g_found);
+	bool r = bidib_node_stall_ready(a);
+	VP_COVER(!r && depth == 3);
+	VP_COVER(r && depth == 2);
+	/* nearest stalled node on the path node -> parent -> ... -> interface */
+	int nearest = -1;
+	for (int l = 3; l >= 0; l--) if (g_path_valid[l] && g_path_state[l] != NULL && g_path_state[l]->stall) nearest = l;
+	__CPROVER_assert(r == (nearest < 0), "C04.stall_ready.true_iff_neither_the_node_nor_any_ancestor_is_stalled");
+	for (int l = 0; l < 4; l++)
+		__CPROVER_assert(g_push_to[l] == ((l == nearest && !g_found) ? 1u : 0u), "C04.stall_ready.registered_once_as_waiter_at_the_nearest_stalled_node_and_nowhere_else");
 }
 #endif
